@@ -1068,8 +1068,12 @@ impl TDigestView<'_> {
                 return Some(if value == self.min {
                     0.5 / centroids_weight
                 } else {
-                    (1. + (((value - self.min) / (first_mean - self.min))
-                        * ((self.centroids[0].weight() / 2.) - 1.)))
+                    // `below` is the weight strictly below the tail: the minimum itself, or half
+                    // of the first centroid if that is a single sample (which happens when samples
+                    // are added below the first centroid of a deserialized digest)
+                    let half = self.centroids[0].weight() / 2.;
+                    let below = half.min(1.);
+                    (below + (((value - self.min) / (first_mean - self.min)) * (half - below)))
                         / centroids_weight
                 });
             }
@@ -1083,9 +1087,10 @@ impl TDigestView<'_> {
                 return Some(if value == self.max {
                     1. - (0.5 / centroids_weight)
                 } else {
-                    1.0 - ((1.0
-                        + (((self.max - value) / (self.max - last_mean))
-                            * ((self.centroids[num_centroids - 1].weight() / 2.) - 1.)))
+                    let half = self.centroids[num_centroids - 1].weight() / 2.;
+                    let above = half.min(1.);
+                    1.0 - ((above
+                        + (((self.max - value) / (self.max - last_mean)) * (half - above)))
                         / centroids_weight)
                 });
             }
